@@ -210,8 +210,12 @@ func metaGenSharing(r *Rng) string {
 	return strings.Join(ops, " ")
 }
 
-func metaGenHistory(r *Rng, profile string) string {
-	if r.Chance(12) {
+// histories of the 15 core operations only (used by the properties whose models are built on Model/Meta.v)
+func metaGenHistory(r *Rng, profile string) string { return metaGenHistoryX(r, profile, false) }
+
+// ext adds the ranged operations of Model/MetaExt.v (getr, cpr, upc) and the sharing scenarios
+func metaGenHistoryX(r *Rng, profile string, ext bool) string {
+	if ext && r.Chance(12) {
 		return metaGenSharing(r)
 	}
 	g := &metaGenState{r: r, upParts: map[int][]int{}, ver: map[string]string{}}
@@ -234,7 +238,10 @@ func metaGenHistory(r *Rng, profile string) string {
 	}
 	n := 12 + r.Intn(45)
 	// weights per profile
-	w := map[string]int{"put": 22, "get": 14, "head": 6, "del": 10, "delv": 6, "ver": 5, "lsv": 5, "ls": 3, "cmu": 4, "up": 8, "cpl": 4, "abt": 1, "app": 6, "cp": 4, "rb": 1, "mb": 1, "getr": 5, "upc": 5, "cpr": 3}
+	w := map[string]int{"put": 22, "get": 14, "head": 6, "del": 10, "delv": 6, "ver": 5, "lsv": 5, "ls": 3, "cmu": 4, "up": 8, "cpl": 4, "abt": 1, "app": 6, "cp": 5, "rb": 1, "mb": 1}
+	if ext {
+		w["cp"], w["getr"], w["upc"], w["cpr"] = 4, 5, 5, 3
+	}
 	switch profile {
 	case "c02":
 		w["ver"], w["delv"], w["del"], w["lsv"], w["get"] = 10, 14, 10, 9, 16
@@ -419,7 +426,7 @@ func metaSortStringsNumeric(s []string) {
 func (p *metaProp) Gen(r *Rng, tier string, n int) []string {
 	out := make([]string, n)
 	for i := range out {
-		out[i] = metaGenHistory(r.Fork(), p.profile)
+		out[i] = metaGenHistoryX(r.Fork(), p.profile, true)
 	}
 	return out
 }
